@@ -2,17 +2,22 @@ import Cfdm.Lemmas.NcNames
 import Cfdm.Lemmas.Globals
 import Cfdm.Lemmas.NcFile
 import Cfdm.Lemmas.NcWrite
+import Cfdm.Lemmas.NcField
+import Cfdm.Model.NcStore
 /-
 C08 — a written dataset is a faithful CF-netCDF encoding at file level.
 Property theorems only.
 
-`NcNames.request true` is `_netcdf_name` after `fixes/C08-netcdf-name-blanks.patch`
-(blanks replaced before the uniqueness test); the method as it stands
-(`request false`) is refuted by `C08_old_names_counterexample`.  The global-attribute
-placement is modelled with `equal_properties` for the forced values
-(`fixes/C08-forced-global-unhashable.patch`); the Conventions assembly is the code as
-repaired in /repo commit 382699f, the loop it replaced is refuted by
-`C08_old_conventions_counterexample`.
+`NcNames.request true` is `_netcdf_name` as it is in /repo (blanks replaced before the
+uniqueness test, commit 5c79a06); the method before that commit (`request false`) is refuted by
+`C08_old_names_counterexample`.  The global-attribute placement compares forced values with
+`equal_properties` (commit 78f8b2f); the Conventions assembly is the code as repaired in commit
+382699f, the loop it replaced is refuted by `C08_old_conventions_counterexample`.  The whole-field
+writer (`NcField`, `patched = true`) is the code after the two OPEN repairs
+`fixes/C08-dimension-coordinate-name-from-dimension.patch` and
+`fixes/C08-equal-dimension-coordinates-one-field.patch`; the code as it stands (`patched = false`)
+is refuted by `C08_old_dimension_name_counterexample` and
+`C08_old_equal_dimension_coordinates_counterexample`.
 -/
 namespace Cfdm.Props.C08
 open Cfdm
@@ -105,9 +110,9 @@ example : freshNames (run true {} [.req "lat" none none, .regdim "lat" 4, .req "
       .req "bounds2" (some 2) (some "bounds"), .req "lat_bnds" none none]).2
     = ["lat", "lat_1", "bounds2", "lat_bnds", "lat_bnds_1"] := by decide
 
-/-- The method as it stands replaces blanks *after* the uniqueness test: a name with a blank
-is returned although it is in use (`cfdm.write` then fails with "NetCDF: String match to name
-in use"). -/
+/-- The method before /repo commit 5c79a06 replaced blanks *after* the uniqueness test: a name
+with a blank was returned although it was in use (`cfdm.write` then failed with "NetCDF: String
+match to name in use"). -/
 theorem C08_old_names_counterexample :
     request false { vars := ["a_b"] } "a b" none none = (.fresh "a_b", { vars := ["a_b", "a_b"] })
     ∧ "a_b" ∈ ({ vars := ["a_b"] } : St).existing
@@ -392,6 +397,115 @@ example : ∀ f ∈ [exF1, exF2], WFField f := by
   simp only [List.mem_cons, List.not_mem_nil, or_false] at hf
   rcases hf with rfl | rfl <;> exact ⟨by decide, by decide⟩
 
+/-- A field **lacking** the property — or holding another value — blocks the promotion, for every
+list of fields and every option setting: the property is not written as a global attribute from
+the fields' properties, and every field that has it keeps it, with its own value, on its data
+variable. -/
+theorem C08_global_blocked (o : Opts) (fs : List FieldG) (p : String)
+    (h : ∃ f ∈ fs, ∃ g ∈ fs, lookup p f.props ≠ lookup p g.props ∨ lookup p f.props = none) :
+    p ∉ keys (propertyGlobals o fs)
+    ∧ ∀ f ∈ fs, ∀ v, (p, v) ∈ f.props → (p, v) ∈ variableAttrs o fs f := by
+  obtain ⟨f, hf, g, hg, hne⟩ := h
+  have hno : ¬ ∃ v, AllEqual fs p v := by
+    rintro ⟨v, hall⟩
+    have h1 := hall.2 f hf
+    have h2 := hall.2 g hg
+    rcases hne with hne | hne
+    · exact hne (h1.trans h2.symm)
+    · rw [hne] at h1; cases h1
+  have hg' : p ∉ globalSet o fs := fun hm => hno (mem_globalSet.mp hm).2.1
+  refine ⟨?_, ?_⟩
+  · intro hm
+    obtain ⟨⟨k, v⟩, hkv, rfl⟩ := List.mem_map.mp hm
+    exact hg' (mem_propertyGlobals.mp hkv).2.1
+  · intro f' _ v hv
+    exact List.mem_filter.mpr ⟨hv, by simpa using hg'⟩
+
+example : (∃ f ∈ [exF1, exF2], ∃ g ∈ [exF1, exF2], lookup "project" f.props ≠ lookup "project" g.props ∨ lookup "project" f.props = none) :=
+  ⟨exF1, by simp, exF2, by simp, Or.inl (by decide)⟩
+example : propertyGlobals { exO with userGlobal := ["project", "only1"] }
+    [{ exF1 with props := ("only1", "v") :: exF1.props }, exF2] = [("comment", "c"), ("foo", "1")] := by decide
+
+/-- Order independence: the decision does not depend on the order in which the fields are given
+(in particular not on which field comes first, although the code reads the value from field 0):
+for any permutation of the list the same global attributes are written with the same values, every
+data variable gets the same attributes, and the same `Conventions` value is forced. -/
+theorem C08_global_order_independent (o : Opts) (fs fs' : List FieldG) (hperm : fs.Perm fs') :
+    (∀ kv, kv ∈ writtenGlobals o fs ↔ kv ∈ writtenGlobals o fs')
+    ∧ (∀ f, variableAttrs o fs f = variableAttrs o fs' f)
+    ∧ forcedConventions o fs = forcedConventions o fs' := by
+  have hmem : ∀ f, f ∈ fs ↔ f ∈ fs' := fun f => hperm.mem_iff
+  have hne : fs ≠ [] ↔ fs' ≠ [] := by
+    constructor
+    · intro h; obtain ⟨f, hf⟩ := List.exists_mem_of_ne_nil _ h; exact List.ne_nil_of_mem ((hmem f).mp hf)
+    · intro h; obtain ⟨f, hf⟩ := List.exists_mem_of_ne_nil _ h; exact List.ne_nil_of_mem ((hmem f).mpr hf)
+  have hE : ∀ p, Eligible o fs p ↔ Eligible o fs' p := by
+    intro p; unfold Eligible
+    constructor
+    · rintro (h | h | ⟨f, hf, h⟩)
+      · exact Or.inl h
+      · exact Or.inr (Or.inl h)
+      · exact Or.inr (Or.inr ⟨f, (hmem f).mp hf, h⟩)
+    · rintro (h | h | ⟨f, hf, h⟩)
+      · exact Or.inl h
+      · exact Or.inr (Or.inl h)
+      · exact Or.inr (Or.inr ⟨f, (hmem f).mpr hf, h⟩)
+  have hA : ∀ p v, AllEqual fs p v ↔ AllEqual fs' p v := by
+    intro p v; unfold AllEqual
+    exact ⟨fun h => ⟨hne.mp h.1, fun f hf => h.2 f ((hmem f).mpr hf)⟩, fun h => ⟨hne.mpr h.1, fun f hf => h.2 f ((hmem f).mp hf)⟩⟩
+  have hF : ∀ p v, Forced fs p v ↔ Forced fs' p v := by
+    intro p v; unfold Forced
+    exact ⟨fun h => ⟨hne.mp h.1, fun f hf => h.2 f ((hmem f).mpr hf)⟩, fun h => ⟨hne.mpr h.1, fun f hf => h.2 f ((hmem f).mp hf)⟩⟩
+  have hO : ∀ p, Overridden o fs p ↔ Overridden o fs' p := by
+    intro p; unfold Overridden
+    constructor
+    · rintro (h | h | ⟨v, h⟩)
+      · exact Or.inl h
+      · exact Or.inr (Or.inl h)
+      · exact Or.inr (Or.inr ⟨v, (hF p v).mp h⟩)
+    · rintro (h | h | ⟨v, h⟩)
+      · exact Or.inl h
+      · exact Or.inr (Or.inl h)
+      · exact Or.inr (Or.inr ⟨v, (hF p v).mpr h⟩)
+  have hG : ∀ p, p ∈ globalSet o fs ↔ p ∈ globalSet o fs' := by
+    intro p
+    rw [mem_globalSet, mem_globalSet, hE p, hO p]
+    constructor
+    · rintro ⟨h1, ⟨v, h2⟩, h3⟩; exact ⟨h1, ⟨v, (hA p v).mp h2⟩, h3⟩
+    · rintro ⟨h1, ⟨v, h2⟩, h3⟩; exact ⟨h1, ⟨v, (hA p v).mpr h2⟩, h3⟩
+  refine ⟨?_, ?_, ?_⟩
+  · rintro ⟨p, v⟩
+    rw [C08_written_globals, C08_written_globals, hE p, hA p v, hO p, hF p v]
+  · intro f
+    unfold variableAttrs
+    apply List.filter_congr
+    intro kv _
+    have : (globalSet o fs).contains kv.1 = (globalSet o fs').contains kv.1 := by
+      rw [Bool.eq_iff_iff]
+      simp only [List.contains_eq_mem, decide_eq_true_eq]
+      exact hG kv.1
+    rw [this]
+  · unfold forcedConventions
+    have hk : ∀ p v, (p, v) ∈ forceKept o fs ↔ (p, v) ∈ forceKept o fs' := by
+      intro p v; rw [mem_forceKept, mem_forceKept, hF p v]
+    have hnd : ∀ gs, (keys (forceKept o gs)).Nodup := by
+      intro gs
+      have := forceKept_filter_keys_nodup o gs (fun _ => true)
+      have he : (forceKept o gs).filter (fun _ => true) = forceKept o gs := List.filter_eq_self.mpr (fun _ _ => rfl)
+      rwa [he] at this
+    cases h1 : lookup "Conventions" (forceKept o fs) with
+    | some v =>
+      exact (lookup_of_mem_nodup (hnd fs') ((hk _ v).mp (lookup_some_mem h1))).symm
+    | none =>
+      cases h2 : lookup "Conventions" (forceKept o fs') with
+      | none => rfl
+      | some v =>
+        have := lookup_of_mem_nodup (hnd fs) ((hk _ v).mpr (lookup_some_mem h2))
+        rw [h1] at this; cases this
+
+example : [exF1, exF2].Perm [exF2, exF1] := List.Perm.swap _ _ _
+example : writtenGlobals exO [exF2, exF1] = [("history", "h"), ("comment", "c"), ("foo", "1"), ("bar", "B")] := by decide
+
 end GlobalAttrs
 
 /-! ## Structure of the dataset -/
@@ -454,9 +568,12 @@ What is proved instead: `C08_wf_step` / `C08_wf_steps` for *every* guarded step 
 below — that the coordinate part of the writer (steps 3 and 8: dimension, bounds dimension with
 role/size reuse, bounds variable, coordinate variable, names through `_netcdf_name`) never has a
 step refused, from any state satisfying the invariant and for any requested names and sizes.  The
-emission order of the other construct types is tied to the guarded steps by the `C08.emit`
-correspondence stream only (the real writer's netCDF calls are replayed through `applySteps` on
-every run).  The sharing of a coordinate variable between fields is outside the step kinds
+emission order of the construct types that `NcField` does not model (bounds, domain ancillaries
+and formula terms, grid mappings, geometries, compression variables) is tied to the guarded steps
+by the `C08.emit` correspondence stream only (the real writer's netCDF calls are replayed through
+`applySteps` on every run); for uncompressed fields made of axes, dimension / auxiliary
+coordinates, cell measures, field ancillaries and cell methods the statement IS proved, with the
+sharing of equal constructs: `C08_fields_written` / `C08_fields_closure` below.  The sharing of a coordinate variable between fields is outside the step kinds
 modelled here: there the real writer *replaces* `formula_terms` (finding
 `formula-terms-overwritten-on-shared-vertical-coordinate`).
 -/
@@ -485,5 +602,190 @@ example : (writeDimCoords {} [("lat", 5, some {}), ("lon", 8, some { ncvar := so
             ["lat_bounds", "lat", "lon_bnds", "lon", "lat_1_bounds", "lat_1", "t"]) := by decide
 
 end Structure
+
+/-! ## Whole fields: the per-field naming maps and the references of the data variable -/
+section Fields
+open Cfdm.NcField Cfdm.NcFile
+
+/-- `cfdm.write` of ANY list of (uncompressed) fields — any number of fields, axes, coordinates,
+cell measures, field ancillaries and cell methods, any netCDF names (clashing or not), any
+sharing of equal constructs between fields or inside a field — with the two repairs
+`fixes/C08-dimension-coordinate-name-from-dimension.patch` and
+`fixes/C08-equal-dimension-coordinates-one-field.patch`: no netCDF call is ever refused (every
+name handed to `createDimension` / `createVariable` is free, every `axis_to_ncdim[...]` lookup
+succeeds, every reference of every variable names what exists at that moment with compatible
+dimensions), one data variable per field is written, and the finished dataset is well formed.
+`FieldOK`: keys distinct, constructs and data on axes of the field, every cell-method axis is `area`
+or an axis that something in the field spans. -/
+theorem C08_fields_written (o : Opts) (fs : List AField) (h : ∀ f ∈ fs, FieldOK f = true) :
+    ∃ is ws, writeFields true o {} fs = some (is, ws) ∧ wfCore ws.w.file = true ∧ is.length = fs.length := by
+  obtain ⟨is, ws, hw, hG, _, hA⟩ := writeFields_spec o fs ginv_empty (fun f hf => fieldOK_iff.mp (h f hf))
+  exact ⟨is, ws, hw, hG.inv.core.wf, hA.length⟩
+
+/-- Referential closure of what each data variable says, in the finished dataset and for every
+field of the list (`FieldPost`, clause by clause): the data variable stands on the netCDF
+dimensions of its (final) data axes, in order, **no dimension twice** (CF 2.4); every name in
+its `coordinates` is a variable whose dimensions are among its own; **every axis written in
+`cell_methods`** is `area`, one of its dimensions, or a scalar coordinate variable that it lists in
+`coordinates` — never a construct key, never the name of something absent; and the three
+per-field maps are complete whichever path a construct took: every final data axis is in
+`axis_to_ncdim`, every dimension coordinate and every other construct is in `key_to_ncvar`
+with a variable that exists (created for this field or shared with an earlier one). -/
+theorem C08_fields_closure (o : Opts) (fs : List AField) (h : ∀ f ∈ fs, FieldOK f = true)
+    (is : List Info) (ws : WS) (hw : writeFields true o {} fs = some (is, ws)) :
+    AllPost o ws.w.file fs is := by
+  obtain ⟨is', ws', hw', _, _, hA⟩ := writeFields_spec o fs ginv_empty (fun f hf => fieldOK_iff.mp (h f hf))
+  rw [hw] at hw'
+  cases hw'
+  exact hA
+
+/-- Two fields over the same domain: latitude x longitude, a scalar time coordinate, a 2-d auxiliary
+coordinate, a cell measure; the second field takes the already-in-the-file path for every
+construct and has cell methods over the shared scalar coordinate and a shared dimension. -/
+def exA : AField :=
+  { name := some "ta",
+    axes := [⟨"domainaxis0", 5, none, false, some ⟨"dimensioncoordinate0", 0, some "lat"⟩⟩,
+             ⟨"domainaxis1", 8, some "x", true, some ⟨"dimensioncoordinate1", 1, none⟩⟩,
+             ⟨"domainaxis2", 1, none, false, some ⟨"dimensioncoordinate2", 2, some "time"⟩⟩],
+    dataAxes := ["domainaxis0", "domainaxis1"],
+    cons := [⟨"auxiliarycoordinate0", .aux, 3, some "lon2d", "", ["domainaxis1", "domainaxis0"]⟩,
+             ⟨"cellmeasure0", .measure, 4, none, "area", ["domainaxis0", "domainaxis1"]⟩],
+    cellMethods := [["area"]] }
+def exB : AField := { exA with name := some "ua", cellMethods := [["domainaxis2"], ["domainaxis0", "domainaxis1"]] }
+
+example : FieldOK exA = true ∧ FieldOK exB = true := by decide
+example : (writeFields true {} {} [exA, exB]).map (fun r => r.1.map (fun i => (i.ncvar, i.dims)))
+    = some [("ta", ["lat", "x"]), ("ua", ["lat", "x"])] := by decide
+example : (writeFields true {} {} [exA, exB]).map (fun r => r.1.map (fun i => (i.coords, i.cmTokens)))
+    = some [(["time", "lon2d"], [["area"]]), (["time", "lon2d"], [["time"], ["lat", "x"]])] := by decide
+example : (writeFields true {} {} [exA, exB]).map (fun r => (r.2.w.file.dimNames, r.2.w.file.varNames, r.2.unlimited))
+    = some (["lat", "x"], ["lat", "x", "time", "lon2d", "cell_measure", "ta", "ua"], ["x"]) := by decide
+
+/-- The hypothesis on cell methods cannot be dropped: an axis that neither the data nor any
+construct spans has no netCDF counterpart, the writer leaves the construct key in `cell_methods`
+(`axis_map.get(axis, axis)`), and the reference resolves to nothing. -/
+theorem C08_cell_method_axis_needs_cover :
+    let f : AField := { axes := [⟨"domainaxis0", 3, none, false, none⟩, ⟨"domainaxis1", 1, none, false, none⟩],
+                        dataAxes := ["domainaxis0"], cons := [], cellMethods := [["domainaxis1"]] }
+    FieldOK f = false ∧ FieldOK { f with cellMethods := [] } = true ∧ writeFields true {} {} [f] = none
+      ∧ cmToken {} "domainaxis1" = "domainaxis1" := by decide
+
+/-- The code as it stands, first repair: a dimension coordinate with neither a netCDF variable name
+nor a standard name takes the netCDF dimension name of its axis unchecked. Two fields whose axes
+are both called `x` but whose (unnamed) coordinates differ: the second `createDimension('x')` is
+refused ("NetCDF: String match to name in use"); with the repair the second coordinate is `x_1`. -/
+theorem C08_old_dimension_name_counterexample :
+    let f (c : Nat) : AField := { name := some "q", axes := [⟨"domainaxis0", 3, some "x", false, some ⟨"dimensioncoordinate0", c, none⟩⟩],
+                                  dataAxes := ["domainaxis0"], cons := [] }
+    FieldOK (f 0) = true ∧ FieldOK (f 1) = true
+      ∧ writeFields false {} {} [f 0, f 1] = none
+      ∧ (writeFields true {} {} [f 0, f 1]).map (fun r => r.1.map (·.dims)) = some [["x"], ["x_1"]] := by decide
+
+/-- The code as it stands, second repair: two axes of one field with equal dimension coordinates
+(a covariance matrix over latitude x latitude) share one netCDF dimension, so the data variable
+spans it twice (against CF 2.4); with the repair the second axis gets `lat_1`. -/
+theorem C08_old_equal_dimension_coordinates_counterexample :
+    let f : AField := { name := some "cov",
+                        axes := [⟨"domainaxis0", 3, none, false, some ⟨"dimensioncoordinate0", 7, some "lat"⟩⟩,
+                                 ⟨"domainaxis1", 3, none, false, some ⟨"dimensioncoordinate1", 7, some "lat"⟩⟩],
+                        dataAxes := ["domainaxis0", "domainaxis1"], cons := [] }
+    FieldOK f = true
+      ∧ (writeFields false {} {} [f]).map (fun r => r.1.map (·.dims)) = some [["lat", "lat"]]
+      ∧ (writeFields true {} {} [f]).map (fun r => r.1.map (·.dims)) = some [["lat", "lat_1"]] := by decide
+
+end Fields
+
+/-! ## Storage: data types, `_FillValue` typing, string versus character storage -/
+section Storage
+open Cfdm.NcStore
+
+/-- The variable and its `_FillValue` / `missing_value` attributes have ONE type, whatever the output
+format, the `string` option and the `datatype=` mapping: the type `createVariable` is given
+(`_datatype`) is the type the attributes are cast to (`_write_attributes`) — netCDF refuses anything
+else ("Not a valid data type or _FillValue type mismatch"). For every construct with numeric data. -/
+theorem C08_fill_type_is_variable_type (fmt : Fmt) (string : Bool) (m : List (DType × DType)) (d given : DType)
+    (hd : d.isString = false) :
+    datatype fmt string m (some d) = .code (fillDType m (some d) given).kind (fillDType m (some d) given).size := by
+  simp [datatype, fillDType, hd]
+
+example : datatype .netcdf4Classic true [(⟨.float, 8⟩, ⟨.float, 4⟩)] (some ⟨.float, 8⟩) = .code .float 4
+    ∧ fillDType [(⟨.float, 8⟩, ⟨.float, 4⟩)] (some ⟨.float, 8⟩) ⟨.int, 8⟩ = ⟨.float, 4⟩ := by decide
+/-- Not vacuous: typing the attributes from the data's own dtype (seeded/C08-2) breaks the agreement. -/
+example : datatype .netcdf4 true [(⟨.float, 8⟩, ⟨.float, 4⟩)] (some ⟨.float, 8⟩)
+    ≠ .code (fillDTypeUnmapped [(⟨.float, 8⟩, ⟨.float, 4⟩)] (some ⟨.float, 8⟩) ⟨.float, 8⟩).kind
+        (fillDTypeUnmapped [(⟨.float, 8⟩, ⟨.float, 4⟩)] (some ⟨.float, 8⟩) ⟨.float, 8⟩).size := by decide
+
+/-- The requested data type is the one realised: numeric data of dtype `d` are stored with the type the
+`datatype=` dictionary gives for `d` — looked up once, never chained through a second entry — and with
+their own type when the dictionary (keys distinct, as in a `dict`) has no entry for `d`. -/
+theorem C08_datatype_requested (fmt : Fmt) (string : Bool) (m : List (DType × DType)) (d : DType)
+    (hd : d.isString = false) (hm : (m.map (·.1)).Nodup) :
+    (∀ t, (d, t) ∈ m → datatype fmt string m (some d) = .code t.kind t.size)
+    ∧ (d ∉ m.map (·.1) → datatype fmt string m (some d) = .code d.kind d.size) := by
+  constructor
+  · intro t ht
+    have : mapGet m d = some t := by
+      unfold mapGet
+      induction m with
+      | nil => cases ht
+      | cons x xs ih =>
+        simp only [List.map_cons, List.nodup_cons] at hm
+        simp only [List.find?_cons]
+        rcases List.mem_cons.mp ht with rfl | ht
+        · simp
+        · have hne : x.1 ≠ d := fun h => hm.1 (h ▸ List.mem_map.mpr ⟨(d, t), ht, rfl⟩)
+          have : (x.1 == d) = false := by simpa using hne
+          simp only [this]
+          exact ih hm.2 ht
+    simp [datatype, hd, this]
+  · intro hn
+    have : mapGet m d = none := by
+      unfold mapGet
+      rw [Option.map_eq_none_iff, List.find?_eq_none]
+      intro x hx
+      simp only [beq_iff_eq]
+      intro h
+      exact hn (h ▸ List.mem_map.mpr ⟨x, hx, rfl⟩)
+    simp [datatype, hd, this]
+
+/-- `{int64: int32, int32: int16}` stores int64 data as int32, not int16. -/
+example : datatype .netcdf4 true [(⟨.int, 8⟩, ⟨.int, 4⟩), (⟨.int, 4⟩, ⟨.int, 2⟩)] (some ⟨.int, 8⟩) = .code .int 4 := by decide
+
+/-- String-valued data: a variable-length netCDF string **iff** the format is NETCDF4 and
+`string=True`; in every other case a character array with exactly one more (trailing, string-length)
+dimension than the construct; numeric data never get an extra dimension and never become strings,
+whatever the `datatype=` mapping says about other types. -/
+theorem C08_string_storage (fmt : Fmt) (string : Bool) (m : List (DType × DType)) (d : DType) :
+    (d.isString = true →
+      (datatype fmt string m (some d) = .vlenString ↔ fmt = .netcdf4 ∧ string = true)
+      ∧ (datatype fmt string m (some d) ≠ .vlenString → datatype fmt string m (some d) = charType ∧ extraDims fmt string m (some d) = 1)
+      ∧ (datatype fmt string m (some d) = .vlenString → extraDims fmt string m (some d) = 0))
+    ∧ (d.isString = false → datatype fmt string m (some d) ≠ .vlenString
+        ∧ (datatype fmt string m (some d) ≠ charType → extraDims fmt string m (some d) = 0)) := by
+  constructor
+  · intro hs
+    by_cases h : fmt = .netcdf4 ∧ string = true
+    · obtain ⟨rfl, rfl⟩ := h
+      simp [datatype, hs, extraDims, charType]
+    · have hb : (fmt == Fmt.netcdf4 && string) = false := by
+        by_cases hf : fmt = .netcdf4
+        · have : string = false := by
+            cases string with
+            | false => rfl
+            | true => exact absurd ⟨hf, rfl⟩ h
+          simp [this]
+        · have : (fmt == Fmt.netcdf4) = false := by simpa using hf
+          simp [this]
+      simp [datatype, hs, extraDims, charType, hb, h]
+  · intro hs
+    refine ⟨by simp [datatype, hs], ?_⟩
+    intro hne
+    simp only [extraDims, Option.isSome_some, Bool.true_and, beq_iff_eq, ite_eq_right_iff]
+    intro h; exact absurd h hne
+
+example : datatype .netcdf3Classic true [] (some ⟨.unicode, 12⟩) = charType ∧ extraDims .netcdf3Classic true [] (some ⟨.unicode, 12⟩) = 1
+    ∧ datatype .netcdf4 false [] (some ⟨.unicode, 12⟩) = charType ∧ datatype .netcdf4 true [] (some ⟨.bytes, 3⟩) = .vlenString := by decide
+
+end Storage
 
 end Cfdm.Props.C08
